@@ -160,7 +160,8 @@ class Canon:
         if x[0] == "not":
             return x[1]
         if x[0] == "cmp":
-            return self.cmp(NEG[x[1]], x[2], x[3])
+            # ("cmp", rel, a, b[, ("c", k)]) reads a rel b + k: the offset belongs to the right-hand side and is negated with it
+            return self.cmp(NEG[x[1]], x[2], self.add([x[3], x[4]]) if len(x) == 5 else x[3])
         if x[0] == "and":
             return self.nary("or", [self.neg(y) for y in x[1:]])
         if x[0] == "or":
@@ -280,7 +281,8 @@ GRAPHS: List[Tuple[str, int, List[Tuple[int, int]]]] = [
     ("two components", 4, [(0, 1), (2, 3)]),
     ("parallel edges", 2, [(0, 1), (0, 1)]),
     # fewer edges than vertices and still cyclic (edge-count shortcuts are wrong on disconnected graphs)
-    ("triangle+isolated", 4, [(0, 1), (1, 2), (0, 2)]),
+    # ... its edges entered head-to-tail (0->1->2->0): a tie-break by stored direction lets the three vertices support each other
+    ("triangle+isolated", 4, [(0, 1), (1, 2), (2, 0)]),
     ("parallel edges+isolated", 3, [(0, 1), (0, 1)]),
     # non-bipartite and dense: a spanning star has two adjacent leaves at the same depth (rank differences along tree edges are not +-1)
     ("K4", 4, [(0, 1), (0, 2), (0, 3), (1, 2), (1, 3), (2, 3)]),
